@@ -280,7 +280,7 @@ def mk_utxo(spec, scripts, net):
         sc = PlutusV1Script(sc)                       # an output cannot hold a script of plain type bytes
     out = TransactionOutput(mk_addr(spec['script_addr'], spec['pay'], net), Value(spec['coin']),
                             datum_hash=dh, datum=dat, script=sc)
-    return UTxO(TransactionInput.from_primitive([bytes.fromhex(spec['id']), spec['ix']]), out)
+    return wire(UTxO(TransactionInput.from_primitive([bytes.fromhex(spec['id']), spec['ix']]), out))
 
 
 def mk_rdm(r):
